@@ -48,7 +48,20 @@ def check(ctx):
     core = ret
     while core is not None and core.op == "assume":
         core = core.args[1]
-    if core is not None and core.op == "ite" and contains(core.args[0], lambda s: s is fc):
+    # gather through np.unique:  merged_of_distinct_rows[inverse]  - sound only when the uniqueness key identifies the tuple
+    if core is not None and core.op == "sub" and core.args[1].op == "sub" and core.args[1].args[0].op == "call" \
+            and core.args[1].args[0].args[0] is glob("numpy.unique"):
+        u = core.args[1].args[0]
+        key_arr = u.args[1][0] if u.args[1] else None
+        by_rows = dict(u.args[2]).get("axis") is const(0) and key_arr is not None and (
+            key_arr is fc or (key_arr.op == "call" and key_arr.args[0].op == "attr" and key_arr.args[0].args[1] == "astype" and key_arr.args[0].args[0] is fc))
+        if by_rows:
+            core = core.args[0]
+        else:
+            violated = ("rows are de-duplicated with np.unique over " + (show(key_arr, maxdepth=3)[:60] if key_arr is not None else "?") +
+                        ", which does not identify the value tuple (e.g. a plain concatenation of the columns): different tuples with "
+                        "the same key share one merged name")
+    if violated is None and core is not None and core.op == "ite" and contains(core.args[0], lambda s: s is fc):
         violated = ("the encoding is chosen by a test on the whole table (" + show(core.args[0], maxdepth=3)[:80] + "): the same value "
                     "tuple can be keyed differently in two calls (fit vs. predict), so rows no longer group by tuple equality")
     inner_arr = None
